@@ -196,6 +196,6 @@ func jsonUnescape(i interface{}) (Value, error) {
 		}
 		return b.Finish(), nil
 	default:
-		panic(fmt.Sprintf("Unrecognised value: %v (%[1]T)", i))
+		return nil, errors.Errorf("Unrecognised value: %v (%[1]T)", i)
 	}
 }
